@@ -361,7 +361,9 @@ func fileReadAux(L *LState, file *lFile, idx int) int {
 				switch opt {
 				case 'n':
 					var v LNumber
-					_, err = fmt.Fscanf(file.reader, LNumberScanFormat, &v)
+					if err = skipBufioSpaces(file.reader); err == nil {
+						_, err = fmt.Fscanf(file.reader, LNumberScanFormat, &v)
+					}
 					if err == io.EOF {
 						L.Push(LNil)
 						goto normalreturn
